@@ -1,5 +1,11 @@
 package sem
 
+import (
+	"errors"
+	"math"
+	"sort"
+)
+
 // Constructs added with the loops-with-fuel extension: for-cond loops, three-clause loops
 // that are not counting loops, early return from such loops, calls of functions that take
 // fuel (as statements, inside range loops), interface arguments of concrete type
@@ -106,3 +112,91 @@ func UseAny(x float64) float64 {
 }
 
 func Tenth(x float64) float64 { return x * 0.1 }
+
+// ---- round 3, second batch: append, slice expressions, copy, nil comparison, math.Modf, error
+// results, function literals capturing values, constant conditions, signed shift, in-place
+// opaque functions (the opaque ones are given a concrete meaning by the test driver)
+
+func AppendSq(xs []int, k int) []int {
+	out := []int{}
+	for _, x := range xs {
+		out = append(out, x*x)
+	}
+	out = append(out, k, k+1)
+	return append([]int(nil), out...)
+}
+
+func Window(xs []float64, lo, n int) float64 {
+	w := xs[lo : lo+n]
+	s := 0.0
+	for _, x := range w {
+		s += x
+	}
+	return s + float64(len(xs[lo:])) + float64(len(xs[:lo]))
+}
+
+func CopyInto(dst, src []int) []int {
+	tmp := make([]int, len(dst))
+	copy(tmp, dst)
+	copy(tmp, src)
+	return tmp
+}
+
+func NilOrLen(xs []float64) int {
+	if xs == nil {
+		return -1
+	}
+	if xs != nil && len(xs) > 2 {
+		return 2
+	}
+	return len(xs)
+}
+
+func ModfParts(x float64) (float64, float64) {
+	ip, fr := math.Modf(x)
+	return ip, fr
+}
+
+var ErrNeg = errors.New("negative")
+
+func SqrtInt(n int) (int, error) {
+	if n < 0 {
+		return 0, ErrNeg
+	}
+	r := 0
+	for (r+1)*(r+1) <= n {
+		r++
+	}
+	return r, nil
+}
+
+func Closures(a, x float64) float64 {
+	scale := a * 2
+	f := func(t float64) float64 { return scale*t + 1 }
+	g := func(t float64, k int) float64 {
+		if k > 0 {
+			return f(t) * float64(k)
+		}
+		return f(-t)
+	}
+	return g(x, 2) + g(x, 0)
+}
+
+func DebugOff(x int) int {
+	const debug = false
+	if debug {
+		x = x * 1000
+	}
+	if !debug {
+		x++
+	}
+	return x
+}
+
+func ShiftL(k, c int) int { return k << uint(c) }
+
+func SortedMid(xs []float64) float64 {
+	ys := append([]float64(nil), xs...)
+	sort.Float64s(ys)
+	return ys[len(ys)/2]
+}
